@@ -7,6 +7,7 @@ import (
 	"path"
 	"path/filepath"
 	"strconv"
+	"strings"
 	"sync"
 
 	"go.uber.org/zap"
@@ -171,6 +172,14 @@ func (d *Directory) AddTimeBucket(tbk *io.TimeBucketKey, f *io.TimeBucketInfo) (
 
 	catkeySplit := tbk.GetCategories()
 	datakeySplit := tbk.GetItems()
+
+	// the items become directory names below the root directory: refuse anything that would resolve
+	// elsewhere (a key such as "../1Min/OHLC" created directories and files outside the data root)
+	for _, item := range datakeySplit {
+		if item == "" || item == "." || item == ".." || strings.ContainsAny(item, string(os.PathSeparator)+"\x00") {
+			return fmt.Errorf("invalid item name %q in time bucket key %s", item, tbk.String())
+		}
+	}
 
 	dirname := d.GetPath()
 	for i, dataDirName := range datakeySplit {
